@@ -257,4 +257,34 @@ theorem skipBody_enc (v : Variant) (m : VMat) (h : VMatOk v m) (rest : List Nat)
   rw [List.append_assoc] at this
   exact this
 
+/-! ### the well-formedness predicates are decidable (used by the non-vacuity examples) -/
+
+instance (v : Variant) (lay : Layout) (s : VStr) : Decidable (StrOk v lay s) :=
+  decidable_of_iff ((∀ x ∈ s.2, x < 256 ^ realBytes v) ∧ InKey (v2 v) ((s.1 : Int) + 1) ∧
+      InKey (v2 v) (((s.2.length * wper v : Nat) : Int) + 1) ∧
+      (lay = .nonbigmat → s.1 + 1 < 65536 ∧
+        InKey (v2 v) (((s.1 + 1 : Nat) : Int) + (((s.2.length * wper v : Nat) : Int) + 1) * 65536)))
+    ⟨fun ⟨a, b, c, d⟩ => ⟨a, b, c, d⟩, fun h => ⟨h.vals, h.row, h.len, h.is⟩⟩
+
+theorem exists_single_iff {α} (l : List α) : (∃ s, l = [s]) ↔ l.length = 1 := by
+  constructor
+  · rintro ⟨s, rfl⟩; rfl
+  · intro h
+    match l, h with
+    | [s], _ => exact ⟨s, rfl⟩
+
+instance (v : Variant) (lay : Layout) (ncols : Nat) (p : Nat × List VStr) : Decidable (ColOk v lay ncols p) :=
+  decidable_of_iff (p.1 < ncols ∧ InKey (v2 v) ((p.1 : Int) + 1) ∧ InKey (v2 v) ((nwOf v lay p.2 : Nat) : Int) ∧
+      recLen v lay p.2 < 2147483648 ∧ (∀ s ∈ p.2, StrOk v lay s) ∧ (lay = .dense → p.2.length = 1))
+    ⟨fun ⟨a, b, c, d, e, f⟩ => ⟨a, b, c, d, e, fun h => (exists_single_iff _).2 (f h)⟩,
+      fun h => ⟨h.col, h.ckey, h.nwkey, h.reclen, h.strs, fun hl => (exists_single_iff _).1 (h.dense hl)⟩⟩
+
+instance (v : Variant) (m : VMat) : Decidable (VMatOk v m) :=
+  decidable_of_iff (isIdent m.name = true ∧ m.name.length ≤ nameLen (v2 v) ∧ InKey (v2 v) ((m.ncols : Int) + 1) ∧
+      InKey (v2 v) (rowsKey m) ∧ InKey (v2 v) (m.form : Int) ∧ (∀ p ∈ m.cols, ColOk v m.lay m.ncols p) ∧
+      (m.lay = .bigmat → m.cols ≠ [] → rowsKey m < 0 ∨ rowsKey m ≥ (rows4bigmat : Int)) ∧
+      (m.lay = .nonbigmat → m.cols ≠ [] → ¬ (rowsKey m < 0 ∨ rowsKey m ≥ (rows4bigmat : Int))))
+    ⟨fun ⟨a, b, c, d, e, f, g, h⟩ => ⟨a, b, c, d, e, f, g, h⟩,
+      fun h => ⟨h.name_ident, h.name_len, h.ncols_key, h.rows_key, h.form_key, h.cols, h.big, h.nonbig⟩⟩
+
 end PyYetiVerif.Op4VR
